@@ -55,6 +55,11 @@ def gBuild (ops : List GOp) : GMap := ops.foldl gStep []
 /-- `g.Init(cap)`: `g.Nodes = make(map…, cap)` — a fresh empty map, whatever the graph was. -/
 def gInit (_ : GMap) : GMap := []
 
+/-- Direct writes to the exported map: `delete(g.Nodes, v)` and `delete(ns, v)` for every remaining
+neighbour set `ns` (the node and every arc from / to it disappear). -/
+def gDelNode (g : GMap) (v : Nat) : GMap :=
+  (g.filter fun e => e.1 != v).map fun e => (e.1, e.2.filter fun u => u != v)
+
 /-- The keys of `g.Nodes` (in insertion order; Go ranges over them in random order). -/
 def gKeys (g : GMap) : List Nat := g.map (·.1)
 
